@@ -243,6 +243,7 @@ func (ev *evaluator) call(f *frame, x *ssa.Call, out *evalOutcome, depth int) {
 	for _, p := range ev.spec.CallsTracked {
 		if wild(p, name) {
 			out.Calls["call:"+name] = "yes"
+			out.Calls["call:"+name+"("+f.syms.args(x.Common().Args)+")"] = "yes"
 			for i, a := range x.Common().Args {
 				v := ev.val(f, a)
 				if v == absUnknown {
